@@ -59,11 +59,17 @@ FAdd(a, b) == LET e == MaxE(a.exp, b.exp) IN F(FNum(a, e) + FNum(b, e), e)
 FSub(a, b) == LET e == MaxE(a.exp, b.exp) IN F(FNum(a, e) - FNum(b, e), e)
 FMul(a, b) == F(a.num * b.num, a.exp + b.exp)
 FLt(a, b)  == LET e == MaxE(a.exp, b.exp) IN FNum(a, e) < FNum(b, e)
+\* TLC's integers are 32 bit: operations whose exact result this model cannot carry are left unspecified
+Lim == 1073741824
+AlignSafe(a, b) == LET e == MaxE(a.exp, b.exp) IN e <= 20 /\ Abs(a.num) < Lim \div Pow2(e - a.exp) /\ Abs(b.num) < Lim \div Pow2(e - b.exp)
+AddSafe(a, b)   == LET e == MaxE(a.exp, b.exp) IN e <= 20 /\ Abs(a.num) < (Lim \div 2) \div Pow2(e - a.exp) /\ Abs(b.num) < (Lim \div 2) \div Pow2(e - b.exp)
+MulSafe(a, b)   == a.exp + b.exp <= 20 /\ (a.num = 0 \/ Abs(b.num) <= Lim \div Abs(a.num))
 FEq(a, b)  == a = b                                  \* normal forms are unique
 IsPow2(n)  == n \in {1, 2, 4, 8, 16, 32, 64}
 Log2(n)    == CHOOSE j \in 0..6 : Pow2(j) = n
 \* a / b for b = +-2^j / 2^e : exact
 FDivExact(b) == b.num # 0 /\ IsPow2(Abs(b.num))
+DivSafe(a, b)  == b.exp <= 20 /\ Abs(a.num) < Lim \div Pow2(b.exp) /\ a.exp + 6 <= 20
 FDiv(a, b) == LET s == IF b.num < 0 THEN -1 ELSE 1
                   j == Log2(Abs(b.num))
               IN F(s * a.num * Pow2(b.exp), a.exp + j)
@@ -76,13 +82,33 @@ NatChars(n) == IF n < 10 THEN <<Digit(n)>> ELSE Append(NatChars(n \div 10), Digi
 IntChars(n) == IF n < 0 THEN <<"-">> \o NatChars(-n) ELSE NatChars(n)
 RECURSIVE FracChars(_, _)
 FracChars(fr, den) == IF fr = 0 THEN <<>> ELSE <<Digit((fr * 10) \div den)>> \o FracChars((fr * 10) % den, den)
-\* Go prints float64 with %v: shortest decimal, no exponent in the magnitudes used here
+\* plain decimal form (how a float literal is spelled in a template)
+PlainFloatChars(f) == LET den == Pow2(f.exp)
+                          a   == Abs(f.num)
+                          ip  == a \div den
+                          fr  == a % den
+                      IN (IF f.num < 0 THEN <<"-">> ELSE <<>>) \o NatChars(ip) \o (IF fr = 0 THEN <<>> ELSE <<".">> \o FracChars(fr, den))
+\* Go prints float64 with %v: the shortest decimal that reads back as the same float, in plain form when
+\* the decimal exponent X satisfies -4 <= X < 6, otherwise as d.ddde+XX / d.ddde-XX.  For the dyadic
+\* rationals of this model with at most 15 significant digits the shortest decimal is the exact one.
+RECURSIVE StripTrailingZeros(_), LeadingZeros(_)
+StripTrailingZeros(ds) == IF ds # <<>> /\ ds[Len(ds)] = "0" THEN StripTrailingZeros(SubSeq(ds, 1, Len(ds) - 1)) ELSE ds
+LeadingZeros(ds) == IF ds # <<>> /\ Head(ds) = "0" THEN 1 + LeadingZeros(Tail(ds)) ELSE 0
+ExpChars(x) == (IF x < 0 THEN <<"e", "-">> ELSE <<"e", "+">>) \o (IF Abs(x) < 10 THEN <<"0">> ELSE <<>>) \o NatChars(Abs(x))
+Mantissa(ds) == LET sig == StripTrailingZeros(ds) IN IF Len(sig) <= 1 THEN sig ELSE <<Head(sig), ".">> \o Tail(sig)
 FloatChars(f) == LET den == Pow2(f.exp)
                      a   == Abs(f.num)
                      ip  == a \div den
                      fr  == a % den
-                 IN (IF f.num < 0 THEN <<"-">> ELSE <<>>) \o NatChars(ip) \o (IF fr = 0 THEN <<>> ELSE <<".">> \o FracChars(fr, den))
-FloatPrintable(f) == f.exp <= 8 /\ Abs(f.num) < 1000000 * Pow2(f.exp)
+                     sgn == IF f.num < 0 THEN <<"-">> ELSE <<>>
+                 IN IF a = 0 THEN <<"0">>
+                    ELSE IF ip >= 1000000 THEN                                  \* X >= 6
+                         sgn \o Mantissa(NatChars(ip) \o FracChars(fr, den)) \o ExpChars(Len(NatChars(ip)) - 1)
+                    ELSE IF ip = 0 /\ fr <= (den - 1) \div 10000 THEN               \* X < -4
+                         LET fd == FracChars(fr, den) z == LeadingZeros(fd) IN
+                         sgn \o Mantissa(SubSeq(fd, z + 1, Len(fd))) \o ExpChars(-(z + 1))
+                    ELSE PlainFloatChars(f)
+FloatPrintable(f) == f.exp + Len(NatChars(Abs(f.num) \div Pow2(f.exp))) <= 15
 
 \* ---- truthiness (C07): nil, false, "", empty HTML are falsy; everything else is truthy
 Truthy(v) == CASE v.t = "nil"  -> FALSE
